@@ -70,6 +70,16 @@ chk("C16",
     "with equal real URL.String(); inputs untouched; RedactUserinfoInURLError changes only a top-level *url.Error's URL.",
     SMT + "; two-run (non-interference) harness with the real URL.String")
 
+chk("C09",
+    "Bounded symbolic execution of cache API histories (incl. operations from inside OnDelete) against an abstract LRU model for a family of 108 configurations; "
+    "Stats, Get results, Set results and the OnDelete log compared after every operation; the unsafe container-of pointer arithmetic is executed, not stubbed.",
+    SMT + "; API histories against an abstract LRU model")
+
+chk("C11",
+    "Bounded symbolic execution of operation histories of MapSet[int], SortedSliceSet[int] and RingBuffer[int] against abstract set/ring models, with clone/origin continued "
+    "separately and nondeterministic spare capacity on growing appends.",
+    SMT + "; operation histories against abstract models")
+
 _pending = "check not built yet in this session; see DESIGN.md for the plan"
 for pid in ["C01","C02","C03","C04","C05","C07","C08","C09","C10","C11","C12","C13","C14","C15","C16","C17","C18"]:
     if pid not in CHECKS:
